@@ -12,9 +12,11 @@ from . import weave, runner, rules, lexer, kani
 from .weave import WeaveError, VERIF
 from .props import PROPS
 
-GEN = os.path.join(VERIF, 'gen')
-EVID = os.path.join(VERIF, 'evidence')
-REPLAY = os.path.join(VERIF, 'replay')
+_OUT = os.environ.get('VT_OUT')          # redirected by the mutation catalogue so that sub-runs do not touch the real outputs
+GEN = os.path.join(_OUT, 'gen') if _OUT else os.path.join(VERIF, 'gen')
+EVID = os.path.join(_OUT, 'evidence') if _OUT else os.path.join(VERIF, 'evidence')
+REPLAY = os.path.join(_OUT, 'replay') if _OUT else os.path.join(VERIF, 'replay')
+MUTANTS = os.path.join(VERIF, 'mutants')
 KNOWN = os.path.join(VERIF, 'known_findings.txt')
 CONTRACTS = os.path.join(VERIF, 'contracts')
 
@@ -510,7 +512,7 @@ class PropertyRun:
     def try_find_input(self, v, rep):
         """hook for the concrete-input search (probe programs against the real crate); filled per property"""
         finder = self.cfg.get('input_search')
-        if not finder:
+        if not finder or os.environ.get('VT_NO_PROBE'):
             return None
         if str(v.get('group', '')).startswith('kani_') and not v.get('kani'):
             return None
@@ -521,6 +523,50 @@ class PropertyRun:
         except Exception as e:     # the search never decides anything
             rep['input_search_error'] = str(e)
             return None
+
+
+def run_catalogue(pid):
+    """thorough tier: apply each catalogued semantic edit to a scratch copy of /repo/src and run the quick check on it.
+    A mutant is KILLED when the check reports a VIOLATION (exit 1); undecided (exit 2) and survived (exit 0) are recorded."""
+    path = os.path.join(MUTANTS, pid + '.json')
+    if not os.path.exists(path):
+        return None
+    muts = json.load(open(path))
+    base = os.path.join(GEN, pid, 'catalogue')
+    shutil.rmtree(base, ignore_errors=True)
+    os.makedirs(base, exist_ok=True)
+    repo = weave.REPO
+
+    def one(k, m):
+        d = os.path.join(base, 'm%02d' % k)
+        shutil.copytree(os.path.join(repo, 'src'), os.path.join(d, 'src'))
+        f = os.path.join(d, m['file'])
+        txt = open(f).read()
+        n = txt.count(m['old'])
+        if n < 1 or (m.get('nth') is None and n != 1):
+            shutil.rmtree(d, ignore_errors=True)
+            return dict(mutant=m['name'], file=m['file'], status='stale', detail='pattern occurs %d times' % n)
+        if m.get('nth') is not None:
+            parts = txt.split(m['old'])
+            i = m['nth']
+            txt = m['old'].join(parts[:i + 1]) + m['new'] + m['old'].join(parts[i + 1:])
+        else:
+            txt = txt.replace(m['old'], m['new'])
+        open(f, 'w').write(txt)
+        env = dict(os.environ)
+        env.update(VT_REPO=d, VT_OUT=os.path.join(d, 'out'), VT_NO_PROBE='1')
+        p = subprocess.run([os.path.join(VERIF, 'check'), pid, '--tier', 'quick'], env=env, stdout=subprocess.PIPE, stderr=subprocess.STDOUT, timeout=3600)
+        out = p.stdout.decode(errors='replace')
+        obs = re.findall(r'replay=\S*/([^/\s]+)\.json', out)
+        status = {0: 'SURVIVED', 1: 'killed', 2: 'undecided'}.get(p.returncode, 'error')
+        und = [l for l in out.split('\n') if l.startswith('UNDECIDED')][:2]
+        shutil.rmtree(d, ignore_errors=True)
+        return dict(mutant=m['name'], file=m['file'], status=status, by=obs[:4], detail=und)
+
+    workers = 2 if PROPS[pid].get('kani') else 6
+    with cf.ThreadPoolExecutor(max_workers=workers) as ex:
+        res = list(ex.map(lambda km: one(*km), enumerate(muts)))
+    return res
 
 
 def main(argv):
@@ -542,6 +588,15 @@ def main(argv):
     run.verify_all()
     run.classify()
     run.classify_kani()
+    if a.tier == 'thorough' and not os.environ.get('VT_OUT'):
+        cat = run_catalogue(a.pid)
+        if cat is not None:
+            killed = sum(1 for r in cat if r['status'] == 'killed')
+            run.extra_evidence = dict(mutation_catalogue=cat,
+                                      mutation_summary='%d of %d catalogued semantic edits killed; survivors / undecided are listed (they weaken the claim, they are not alarms)' % (killed, len(cat)))
+            for r in cat:
+                if r['status'] != 'killed':
+                    print('CATALOGUE property=%s mutant=%s status=%s' % (a.pid, r['mutant'], r['status']))
     extra = PROPS[a.pid].get('extra')
     if extra:
         from . import extras
